@@ -1,6 +1,7 @@
 package simkit
 
 import (
+	"strconv"
 	"fmt"
 	"io"
 	"net"
@@ -166,8 +167,8 @@ func (sn *SimNet) Dial(network, addr string) (net.Conn, error) {
 	sn.links = append(sn.links, lk)
 	onLink := sn.OnLink
 	sn.mu.Unlock()
-	go lk.deliver(0)
-	go lk.deliver(1)
+	go lk.deliver(0, lib.VerifSpawnSeq.Add(1))
+	go lk.deliver(1, lib.VerifSpawnSeq.Add(1))
 	select {
 	case l.queue <- lk.ep[1]:
 	default:
@@ -180,9 +181,9 @@ func (sn *SimNet) Dial(network, addr string) (net.Conn, error) {
 }
 
 // deliver moves bytes of one direction from "in flight" to the reader.
-func (lk *Link) deliver(d int) {
+func (lk *Link) deliver(d int, spawnSeq uint64) {
 	sn := lk.sn
-	sn.e.S.Gate("simnet:deliver-start")
+	sn.e.S.Gate("simnet:deliver-start#" + strconv.FormatUint(spawnSeq, 10))
 	dir := &lk.dir[d]
 	rd := lk.ep[1-d]
 	for {
